@@ -10,8 +10,8 @@ checks = []
 na = []
 for pid in ids:
     c = PROPS.get(pid)
-    if not c or not c.get("claimed", True):
-        na.append({"property_id": pid, "reason": (c or {}).get("na_reason", static["na_default"])})
+    if pid in static.get("unclaimed", {}) or not c or not c.get("claimed", True):
+        na.append({"property_id": pid, "reason": static.get("unclaimed", {}).get(pid) or (c or {}).get("na_reason", static["na_default"])})
         continue
     checks.append({
         "property_id": pid,
